@@ -23,10 +23,10 @@ def cases(ctx):
     for i in range(500 if not thorough else 6000):
         Sig = rng.choice([['a', 'b'], ['a'], ['a', 'b', 'c']])
         eps = rng.choice(gen.EPSILONS)
-        N1 = gen.random_nfa(rng, 4, Sig, eps)
+        N1 = gen.random_nfa(rng, 4, Sig, eps, live=rng.random() < 0.7)
         r = rng.random()
         eps2 = N1['eps'] if r < 0.85 else rng.choice(gen.EPSILONS)
-        N2 = gen.random_nfa(rng, 4, rng.choice([Sig, Sig, ['a', 'b']]), eps2, prefix=rng.choice(['p', 'r_', 'x']))
+        N2 = gen.random_nfa(rng, 4, rng.choice([Sig, Sig, ['a', 'b']]), eps2, prefix=rng.choice(['p', 'r_', 'x']), live=rng.random() < 0.7)
         if set(N1['Q']) & set(N2['Q']):
             continue
         if not thorough or ctx.mine(i):
